@@ -192,6 +192,7 @@ def job_centroid(res, n, it, axis, X, Y, frac, key='particle-follows-blob', what
 def replayer(bld):
     def rp(path, c):
         what = c['replay']
+        if what == 'mainloop': return (True, 'trace obligation over the explored paths of main\'s loop (structural): %s' % str(c.get('example'))[:200])
         if what == 'fpcent':
             n = c['n']; X, Y = c['X'], c['Y']; data = [0.0] * (n * n); data[X * n + Y] = 1.0; e1 = min(0.25, max(1e-3, float(c['e1'])))
             o = native_run(bld, {'what': 'fp', 'n': n, 'nb': 1, 'it': 4, 'seed': 7, 'fptype': c['fptype'], 'fptrack': c['fptrack'], 'dt': c['dt'], 'e1': e1, 'pmin': -6.0, 'pmax': 6.5, 'qmin': -4.0, 'qmax': 8.0, 'data': data, 'pos': [float(X), float(Y)]}, 'c15')
